@@ -18,6 +18,28 @@ CLAIMS = {
         technique="static analysis: difference-bound abstract interpretation + typestate + table checks over the "
                   "exported clang AST/CFG",
         ref="DESIGN.md section 4 C01"),
+    "C02": dict(
+        text="Static analysis, partial: pattern literals and all declared Prefix/Suffix/attribute lengths in the five "
+             "character specialisations against the documented tag spellings; finder word list, size, group and "
+             "first-character tables and pattern IDs mutually consistent; parse/render dispatch arm per pattern ID / "
+             "tag kind with the record of that kind; cursor protocol of the seven renderers; verbatim echo of "
+             "unresolved tags; sort option bits; enclosing-loop pointer push/pop; the finder tries every word of a "
+             "group; no code unit narrowed below 32 bits (width independence). Necessary structural clauses, not the "
+             "equality of the output with the documented expansion.",
+        note=TRUST + "Documented spellings in rules/C02.py (from Documentation/Template.md).",
+        technique="static analysis: constant-table/literal agreement, switch dispatch and protocol checks over the exported AST",
+        ref="DESIGN.md section 4 C02"),
+    "C03": dict(
+        text="Static analysis, partial: sink accounting of every stream write in renderVariable/renderSuperVariable "
+             "(literal template slice, escaper call, or CopyValueTo with the escaper as string function), "
+             "renderRawVariable never references the escaper, Value::CopyValueTo applies and forwards string_function; "
+             "the escaper's switch rewrites exactly & < > \" ' with the entity of that character, flush and cursor "
+             "updates checked per arm; entity literals/lengths in five specialisations and the pass-through "
+             "look-ahead constants (guard/index/compare/skip) tied to the literal lengths; the config switch. Decides "
+             "structural clauses; not the universally quantified string claims.",
+        note=TRUST + "HTML entity table in rules/C03.py.",
+        technique="static analysis: effect/sink accounting per renderer, switch-arm protocol, constant agreement",
+        ref="DESIGN.md section 4 C03"),
     "C04": dict(
         text="Static analysis, partial: operator ranks vs the precedence groups parsed on every run from "
              "Documentation/Template.md; anchored rank comparisons of evaluate(); symbol->operator map of getOperation "
@@ -72,6 +94,26 @@ CLAIMS = {
         note=TRUST + "Reference: RFC 8259 section 7. Number text is C10/C11 territory.",
         technique="static analysis: table inversion, exact value-sets of range predicates, switch exhaustiveness",
         ref="DESIGN.md section 4 C08"),
+    "C09": dict(
+        text="Static analysis, thin: 64-bit overflow boundary constants (floor((2^64-1)/10) and its digit), signed "
+             "limit, digit window, decimal range constants; power routines reached only after the range rejection "
+             "(CFG reachability with the range test removed); power-of-five/ten and reciprocal tables exact (Python "
+             "integers); every round-half-up step followed by the exponent carry; no negative numeral reaches "
+             "`return Real` without the sign bit (path-partitioned typestate); scanner bounds by E-ZONE; no code unit "
+             "narrowed below 32 bits. Does not decide accuracy (<= 1 ulp), rounding of ties, or magnitudes between "
+             "DBL_MAX and 1e310.",
+        note=TRUST + "Mathematical identities computed with Python integers.",
+        technique="static analysis: constant/table identities, CFG dominance, sibling idiom pairing, typestate, zone bounds",
+        ref="DESIGN.md section 4 C09"),
+    "C10": dict(
+        text="Static analysis, thin: digit tables, interval-proven table indices and unsigned-only instantiations of "
+             "IntToString (instantiation view), IEEE-754 parameter tables, integer buffer-size formula for every "
+             "width, inf/nan/zeros literals and the bounded insertZeros arguments (E-ZONE), power tables, and BORROW: "
+             "no storage pointer borrowed from a stream is used after a call that may reallocate it (interprocedural "
+             "may-release summaries computed from the model). Does not decide digit-exact equality with printf.",
+        note=TRUST + "One stated assumption: the remainder of a division by 10^k prints at most k digits.",
+        technique="static analysis: table identities, interval/piecewise-linear index bounds, borrow (stale pointer) dataflow",
+        ref="DESIGN.md section 4 C10"),
     "C20": dict(
         text="Static analysis, partial but exhaustive over code points: every CFG path of the three "
              "UnicodeToUTF::ToUTF specialisations is summarised in a bit-level abstract domain (interval of the code "
